@@ -25,6 +25,13 @@ R-C08e  comparison keys keep dimensions distinguishable: a function whose result
         `_dim_token(x) != _dim_token(y)`) is evaluated on abstract dimensions (integers, named symbolic dims, an
         anonymous dim): two different symbols, two different integers, and an integer vs a symbol must get
         different keys — otherwise a stale annotation with swapped symbols is "equal" and never overwritten
+R-C08f  a refresh that copied ONE operand's shape onto the output of a multi-operand (broadcasting) node is only
+        final when the broadcast merge of all operand shapes succeeded: in `_refresh_elementwise_output_shape` every
+        path from the operand-shape copy to an exit must assign the output's `.shape` again (merged shape, or the
+        previous annotation), be the "already equal" exit, or be the branch where at most one operand has a shape
+R-C08g  declared element types of allocated values: `allocate_value_for_var` may replace the aval's float dtype by the
+        default float only for floats *wider* than the default (float64 in single-precision mode); a test that also
+        catches float16 declares FLOAT for values that are float16 at run time
 Not decided here: whether every re-meant node is refreshed at all: the registered propagate passes re-derive
 the shapes of most element-wise ops afterwards, so a *missing* refresh inside one rewrite step is not statically
 a wrong final annotation; the observation-guard side is C02 R-C02a.
@@ -322,6 +329,73 @@ def rule_d(res: Results, idx: Index) -> None:
     res.control("R-C08d", "schema oracle: Relu / Add / Clip keep the input type, Cast / CastLike / Less / IsNaN do not", all(_dtype_preserving(o) is True for o in ("Relu", "Add", "Clip", "Not")) and all(_dtype_preserving(o) is False for o in ("Cast", "CastLike", "Less", "IsNaN")), "")
 
 
+def rule_f(res: Results, idx: Index) -> None:
+    f = idx.find_func(OPT, "_refresh_elementwise_output_shape")
+    if f is None:
+        raise AnalysisError("_refresh_elementwise_output_shape not found")
+    g = cfg_of(f.node)
+    du = defuse(f.node)
+    copies = [c for c in walk_no_nested(f.node) if isinstance(c, ast.Call) and (call_name(c) or "") in ("_copy_shape_dtype", "_copy_shape_only") and len(c.args) == 2]
+    # copies whose source is chosen among several operands (not the CastLike data input special case)
+    multi = [c for c in copies if isinstance(c.args[1], ast.Name) and any(isinstance(v, ast.Call) and (call_name(v) or "").endswith("shape_source") for v in du.values(c.args[1].id))]
+    if not multi:
+        raise AnalysisError("_refresh_elementwise_output_shape: no operand-shape copy chosen by _elementwise_shape_source found")
+    shape_writes = [st for st in walk_no_nested(f.node) if isinstance(st, ast.Assign) and any(isinstance(t, ast.Attribute) and t.attr == "shape" for t in st.targets)]
+    removed = {n for st in shape_writes for n in g.nodes_of(st)}
+    # exits that are fine without a further write
+    safe_edges = []
+    for st in walk_no_nested(f.node):
+        if isinstance(st, ast.If):
+            t = st.test
+            # `if key(out.shape) == key(merged): return`  -> already equal
+            if isinstance(t, ast.Compare) and len(t.ops) == 1 and isinstance(t.ops[0], ast.Eq) and isinstance(t.left, ast.Call) and isinstance(t.comparators[0], ast.Call) and call_name(t.left) == call_name(t.comparators[0]):
+                safe_edges += [(n, "T") for n in g.nodes_of(st)]
+            # `if len(candidate_shapes) > 1:`  -> the F edge means a single shaped operand
+            if isinstance(t, ast.Compare) and len(t.ops) == 1 and isinstance(t.left, ast.Call) and (call_name(t.left) or "") == "len" and isinstance(t.comparators[0], ast.Constant):
+                k = t.comparators[0].value
+                if (isinstance(t.ops[0], ast.Gt) and k == 1) or (isinstance(t.ops[0], ast.GtE) and k == 2):
+                    safe_edges += [(n, "F") for n in g.nodes_of(st)]
+                if (isinstance(t.ops[0], ast.LtE) and k == 1) or (isinstance(t.ops[0], ast.Lt) and k == 2):
+                    safe_edges += [(n, "T") for n in g.nodes_of(st)]
+    for i, c in enumerate(multi):
+        key = f"{OPT}::_refresh_elementwise_output_shape::partial-refresh#{i}"
+        site = f"{OPT}:{c.lineno}"
+        r = g.reachable(g.nodes_of(enclosing_stmt(c)), removed_nodes=removed, removed_edges=safe_edges)
+        if g.EXIT in r:
+            res.violation("R-C08f", site, key, f"after `{src(c, 50)}` the function can return without deriving the broadcast shape (merge failed) and without restoring the previous annotation: a node with several shaped operands keeps ONE operand's shape, which is not its result shape", f.qualname)
+        else:
+            res.ok("R-C08f", site, key, "every exit after the operand-shape copy re-assigns the output shape, is the already-equal exit, or has at most one shaped operand", f.qualname)
+
+
+def rule_g(res: Results, idx: Index) -> None:
+    CTX = "jax2onnx/converter/ir_context.py"
+    f = idx.find_func(CTX, "IRContext.allocate_value_for_var")
+    if f is None:
+        raise AnalysisError("IRContext.allocate_value_for_var not found")
+    writes = [st for st in walk_no_nested(f.node) if isinstance(st, ast.Assign) and any(isinstance(t, ast.Name) and "dtype" in t.id for t in st.targets)
+              and any(isinstance(x, ast.Attribute) and x.attr == "_default_float_dtype" for x in ast.walk(st.value))]
+    key = f"{CTX}::IRContext.allocate_value_for_var::float-narrowing"
+    if not writes:
+        res.ok("R-C08g", f"{CTX}:{f.node.lineno}", key, "the aval dtype is never replaced by the default float", f.qualname)
+        return
+    for st in writes:
+        conds = path_conditions(st)
+        wider = False
+        for e, want in conds:
+            for cmp in [x for x in ast.walk(e) if isinstance(x, ast.Compare) and len(x.ops) == 1]:
+                txt = src(cmp, 200)
+                if "itemsize" in txt and isinstance(cmp.ops[0], (ast.Gt, ast.GtE)) and want:
+                    wider = True
+                if isinstance(cmp.ops[0], ast.Eq) and want and "float64" in txt:
+                    wider = True
+                if isinstance(cmp.ops[0], ast.In) and want and "float64" in txt and "float16" not in txt:
+                    wider = True
+        if wider:
+            res.ok("R-C08g", f"{CTX}:{st.lineno}", key, "only floats wider than the default float are narrowed", f.qualname)
+        else:
+            res.violation("R-C08g", f"{CTX}:{st.lineno}", key, "every float aval different from the default float is declared as the default float, including float16: the operators still produce float16 at run time, so the declared element type contradicts it (ONNX Runtime refuses the model)", f.qualname)
+
+
 def rule_e(res: Results, idx: Index) -> None:
     from ..symeval import EvalRaise, Evaluator, Obj, Unsupported, library_dtypes
     m = idx.module(OPT)
@@ -545,6 +619,10 @@ def run(res: Results, idx: Index, tier: str) -> None:
     rule_d(res, idx)
     res.rule("R-C08e", "shape / dimension comparison keys keep different symbols and extents distinguishable", floor=1)
     rule_e(res, idx)
+    res.rule("R-C08f", "an operand-shape copy on a broadcasting node is followed by the merged shape, the previous annotation, or a single-operand exit", floor=1)
+    rule_f(res, idx)
+    res.rule("R-C08g", "value allocation narrows only floats wider than the default float", floor=1)
+    rule_g(res, idx)
 
     # ---- R-C08b
     n_cv = 0
